@@ -272,9 +272,23 @@ func restoreInst(orig *Inst, r io.Reader) (*Inst, int64, error) {
 }
 
 // obsEqual compares two instances observationally ("" = equal).
-func obsEqual(a, b *Inst, m *rm.Model, f *rm.Forest) string {
+func obsEqual(a, b *Inst, m *rm.Model, f *rm.Forest, gone ...Hash) string {
 	if !eqHashes(a.U.GetRoots(), b.U.GetRoots()) || a.U.GetNumLeaves() != b.U.GetNumLeaves() {
 		return fmt.Sprintf("roots/leaf count differ: %d %s vs %d %s", a.U.GetNumLeaves(), hashesStr(a.U.GetRoots()), b.U.GetNumLeaves(), hashesStr(b.U.GetRoots()))
+	}
+	// leaves that are no longer part of the history (their block was undone): same answer, and
+	// the same provability, from both
+	for _, h := range gone {
+		pa, oka := a.U.GetLeafPosition(h)
+		pb, okb := b.U.GetLeafPosition(h)
+		if pa != pb || oka != okb {
+			return fmt.Sprintf("GetLeafPosition of %s, a leaf of an undone block: (%d,%v) vs (%d,%v)", hs(h), pa, oka, pb, okb)
+		}
+		qa, ea := a.U.Prove([]Hash{h})
+		qb, eb := b.U.Prove([]Hash{h})
+		if (ea == nil) != (eb == nil) || !eqProof(qa, qb) {
+			return fmt.Sprintf("Prove of %s, a leaf of an undone block: %s (%v) vs %s (%v)", hs(h), proofStr(qa), ea, proofStr(qb), eb)
+		}
 	}
 	for s, h := range m.Leaves {
 		pa, oka := a.U.GetLeafPosition(h)
@@ -387,6 +401,41 @@ func c13Check(c *core.Ctx, s fScenario) {
 		restored = append(restored, r)
 	}
 	w.Insts = append(append([]*Inst(nil), orig...), restored...)
+	var gone []Hash
+	undoOn := func(rec *BlockRec, when string) bool {
+		for _, in := range w.Insts {
+			if err := in.U.Undo(uint64(len(rec.Adds)), cloneProof(rec.Proof), cloneHashes(rec.DelHashes), cloneHashes(rec.PrevRoots)); err != nil {
+				c.Violate(in.Cfg.Kind+".Undo", "evolve:undo-error", "after-restore", fmt.Sprintf("%s: %s: %v", when, in.Name, err))
+				return false
+			}
+			if in.Partial() {
+				for _, h := range rec.AddHashes {
+					delete(in.Rem, h)
+				}
+				for _, h := range rec.DelHashes {
+					in.Rem[h] = true
+				}
+			}
+		}
+		w.M = rec.Before.Clone()
+		w.Stump = u.Stump{Roots: cloneHashes(rec.PrevRoots), NumLeaves: rec.PrevN}
+		gone = append(gone, rec.AddHashes...)
+		return true
+	}
+	// "evolves identically under ... undo": every other case first takes back the last block that
+	// was applied BEFORE the forest was written (added after seeded change C13g: what a restored
+	// forest does with a block it was not there for)
+	if c.Index%2 == 0 && len(w.Recs) > 0 && s.FromRootsAt < 0 {
+		rec := w.Recs[len(w.Recs)-1]
+		if !undoOn(rec, "undo of the last block applied before the forest was written") {
+			return
+		}
+		w.Recs = w.Recs[:len(w.Recs)-1]
+		c.Count("evolutions_starting_with_an_undo_of_a_block_older_than_the_stream", 1)
+		if !c13CompareAll(c, w, orig, restored, "after undoing the last block applied before the forest was written", gone...) {
+			return
+		}
+	}
 	var last *BlockRec
 	for i := 0; i < 3; i++ {
 		b := gen.NextBlock(c.Rng, w.M, gen.Tiny, len(w.M.Leaves) == 0)
@@ -401,32 +450,20 @@ func c13Check(c *core.Ctx, s fScenario) {
 			return
 		}
 		last = rec
-		if !c13CompareAll(c, w, orig, restored, fmt.Sprintf("after further block %d", i)) {
+		if !c13CompareAll(c, w, orig, restored, fmt.Sprintf("after further block %d", i), gone...) {
 			return
 		}
 	}
 	if last != nil {
-		for _, in := range w.Insts {
-			if err := in.U.Undo(uint64(len(last.Adds)), cloneProof(last.Proof), cloneHashes(last.DelHashes), cloneHashes(last.PrevRoots)); err != nil {
-				c.Violate(in.Cfg.Kind+".Undo", "evolve:undo-error", "after-restore", fmt.Sprintf("%s: %v", in.Name, err))
-				return
-			}
-			if in.Partial() {
-				for _, h := range last.AddHashes {
-					delete(in.Rem, h)
-				}
-				for _, h := range last.DelHashes {
-					in.Rem[h] = true
-				}
-			}
+		if !undoOn(last, "undo of the last further block") {
+			return
 		}
-		w.M = last.Before.Clone()
-		c13CompareAll(c, w, orig, restored, "after undo of the last further block")
+		c13CompareAll(c, w, orig, restored, "after undo of the last further block", gone...)
 	}
 	c.Count("evolutions_checked", 1)
 }
 
-func c13CompareAll(c *core.Ctx, w *World, orig, restored []*Inst, when string) bool {
+func c13CompareAll(c *core.Ctx, w *World, orig, restored []*Inst, when string, gone ...Hash) bool {
 	f := w.M.Forest()
 	for i := range orig {
 		c.Eval(1)
@@ -434,7 +471,7 @@ func c13CompareAll(c *core.Ctx, w *World, orig, restored []*Inst, when string) b
 			c.Violate(restoreSite(orig[i]), "evolves-differently", "vs-reference", fmt.Sprintf("%s: restored %s has roots %s, reference %s", when, orig[i].Name, hashesStr(restored[i].U.GetRoots()), hashesStr(f.Roots)))
 			return false
 		}
-		if msg := obsEqual(orig[i], restored[i], w.M, f); msg != "" {
+		if msg := obsEqual(orig[i], restored[i], w.M, f, gone...); msg != "" {
 			c.Violate(restoreSite(orig[i]), "evolves-differently", "vs-original", fmt.Sprintf("%s: %s: %s", when, orig[i].Name, msg))
 			return false
 		}
